@@ -1,6 +1,8 @@
 package main
 
 import (
+	"sync/atomic"
+	"encoding/base64"
 	"bytes"
 	"context"
 	"crypto/ecdsa"
@@ -305,8 +307,19 @@ func (sv *negServer) serve(conn net.Conn) {
 				return
 			}
 		case "auth":
-			dec.Skip()
-			sv.rec("auth", secure)
+			// the credentials must arrive exactly: base64(NUL user NUL secret) as the element's text, mechanism PLAIN
+			var au struct {
+				Mechanism string `xml:"mechanism,attr"`
+				Value     string `xml:",chardata"`
+			}
+			if err := dec.DecodeElement(&au, &se); err != nil {
+				return
+			}
+			if au.Mechanism == "PLAIN" && au.Value == base64.StdEncoding.EncodeToString([]byte("\x00test\x00secret")) {
+				sv.rec("auth", secure)
+			} else {
+				sv.rec("auth-payload-mismatch", secure)
+			}
 			switch m["auth"] {
 			case "success":
 				w("<success xmlns='" + nsSASL + "'/>")
@@ -658,6 +671,7 @@ func (np negProp) Exec(c Case) []string {
 		xt.LogTraffic(cfg.StreamLogger)
 	}
 	var obs []string
+	apiDom := ""
 	for i, op := range c.Ops {
 		switch op[0] {
 		case "wsconn":
@@ -700,6 +714,11 @@ func (np negProp) Exec(c Case) []string {
 				}
 			}
 			obs = append(obs, "ok")
+		case "apiconn":
+			if apiDom == "" {
+				apiDom = fmt.Sprintf("api%d.example", atomic.AddInt64(&apiCases, 1))
+			}
+			obs = append(obs, np.oneConn(nil, cfg, nil, opMap(op[1:]), i+len(c.ID), apiDom))
 		case "conn":
 			hsh := 0
 			for _, ch := range c.ID {
@@ -713,7 +732,9 @@ func (np negProp) Exec(c Case) []string {
 	return obs
 }
 
-func (np negProp) oneConn(client *xmpp.Client, cfg *xmpp.Config, xt *xmpp.XMPPTransport, m map[string]string, variant int) string {
+var apiCases int64
+
+func (np negProp) oneConn(client *xmpp.Client, cfg *xmpp.Config, xt *xmpp.XMPPTransport, m map[string]string, variant int, apiDom ...string) string {
 	ln, err := net.Listen("tcp", "127.0.0.1:0")
 	if err != nil {
 		return "listen-failed"
@@ -751,8 +772,25 @@ func (np negProp) oneConn(client *xmpp.Client, cfg *xmpp.Config, xt *xmpp.XMPPTr
 	}
 	tc.InsecureSkipVerify = m["skip"] == "true"
 	tc.ServerName = unhx(m["sn"])
-	xt.Config.TLSConfig = tc
-	xt.Config.Address = addr
+	if xt != nil {
+		xt.Config.TLSConfig = tc
+		xt.Config.Address = addr
+	} else {
+		// through the API only: a NEW client made by NewClient from a configuration that carries the address and the
+		// TLS settings, connecting over the transport NewClient built for it (nothing is poked into the transport)
+		c2 := *cfg
+		c2.Address, c2.TLSConfig, c2.ConnectTimeout = addr, tc, 1
+		if len(apiDom) == 1 {
+			// a domain no other case of this process uses
+			c2.Domain, c2.Jid = apiDom[0], "test@"+apiDom[0]+"/res"
+		}
+		nc, err := xmpp.NewClient(&c2, xmpp.NewRouter(), func(error) {})
+		if err != nil {
+			ln.Close()
+			return "newclient-failed"
+		}
+		client, cfg = nc, &c2
+	}
 
 	type res struct{ err error }
 	done := make(chan res, 1)
@@ -977,6 +1015,18 @@ func (np negProp) Generate(rng *rand.Rand, tier string, st *Stats) []Case {
 		}
 	}
 	logger = false
+
+	// two clients of one domain in one process, made by NewClient alone: the first with certificate verification
+	// switched off by its application, the second strict - and in the other order; the server's certificate comes from
+	// an unknown issuer. What the first client was allowed must not rub off on the second.
+	if np.id == "C04" || np.id == "C03" {
+		api := func(s negScript) []string { o := s.op(); o[0] = "apiconn"; return o }
+		lenient := happy(true, false, false).with("roots", "false", "skip", "true", "cert", "untrusted")
+		strict := happy(true, false, false).with("roots", "false", "skip", "false", "cert", "untrusted")
+		mk(false, false, api(lenient), api(strict), api(strict), api(lenient))
+		mk(false, false, api(strict), api(lenient), api(strict))
+		st.Add("api_only_clients", 7)
+	}
 
 	// certificate verification disabled does NOT mean that running without TLS is allowed: STARTTLS not offered,
 	// refused, or broken off, with InsecureSkipVerify set
